@@ -397,7 +397,37 @@ def scriptnum(ctx):
     mag = mags[0]
     last = ('index', mag, -1)
     if not (isinstance(t, tuple) and t[0] == 'cond'):
-        ctx.undecided('encode_num: result is not a choice on the top bit: %s' % show(t)[:120])
+        # written in another shape (mutable byte buffer, ...): evaluate the function on the numbers around every byte and sign-bit boundary
+        # and compare with the minimal sign-magnitude encoding consensus prescribes
+        def ref(n_):
+            if n_ == 0:
+                return b''
+            a_ = abs(n_)
+            out = a_.to_bytes((a_.bit_length() + 7) // 8, 'little')
+            if out[-1] & 0x80:
+                out += b'\x80' if n_ < 0 else b'\x00'
+            elif n_ < 0:
+                out = out[:-1] + bytes([out[-1] | 0x80])
+            return out
+        grid = sorted(set(x * sgn for sgn in (1, -1) for k in (7, 8, 15, 16, 23, 24, 31) for x in (2 ** k - 2, 2 ** k - 1, 2 ** k, 2 ** k + 1)) | {1, -1, 2, -2, 100000, -100000, 0x7f00, 0x7fff, 0x7f0000, 0x7f000000})
+        bad = []
+        for n_ in grid:
+            it2 = Interp(repo, 'scripts')
+            it2.concrete_bytes = True
+            try:
+                ex2 = it2.run_function(fn, {'num': n_})
+            except AnalysisError as e:
+                ctx.undecided('encode_num: result is not a choice on the top bit and the function is not evaluable for %d: %s' % (n_, str(e)[:80]))
+            vals = [term(e.value) for e in ex2 if e.kind == 'return']
+            if len(vals) != 1 or not isinstance(vals[0], bytes):
+                ctx.undecided('encode_num(%d) evaluates to %s' % (n_, [show(v)[:60] for v in vals]))
+            if vals[0] != ref(n_):
+                bad.append((n_, vals[0].hex(), ref(n_).hex()))
+        ctx.saw('encode_num evaluated on %d boundary numbers; differing from the minimal encoding: %s' % (len(grid), bad[:4]))
+        if bad:
+            ctx.violate(q, 'encode_num(%d) is %s, the minimal script number is %s (and %d more boundary numbers differ)' % (bad[0][0], bad[0][1], bad[0][2], len(bad) - 1), fn,
+                        'results of arithmetic opcodes whose top magnitude byte hits these values get another byte string: `126 1ADD 0x7f EQUAL` fails, non-minimal encodings compare equal')
+        return
     # the choice must be "bit 7 of the last magnitude byte is set": decide it exhaustively over the byte domain
     wrong = []
     for b in range(256):
